@@ -147,6 +147,37 @@ def validate_traces(module, record_cmds, wd, tag, timeout=3000):
         return list(ex.map(one, range(len(record_cmds))))
 
 
+def deep_probes(pid, kinds, depths=(63, 64, 65, 1000, 100000)):
+    """Native-stack probes, each in its own child process: a child killed by a signal is a violation
+    (the interpreter / analyzer exhausted the native stack), never a harness failure."""
+    out, n = [], 0
+    for kind in kinds:
+        for depth in depths:
+            n += 1
+            try:
+                p = subprocess.run([VH, "deep-one", kind, str(depth)], env=env(), stdout=subprocess.PIPE, stderr=subprocess.PIPE, text=True, timeout=300)
+            except subprocess.TimeoutExpired:
+                out.append({"property": pid, "class": "deep_nesting_hangs", "features": {"kind": kind}, "replay": {"kind": kind, "depth": depth}})
+                continue
+            if p.returncode != 0:
+                out.append({"property": pid, "class": "native_stack_exhausted", "features": {"kind": kind, "signal": -p.returncode if p.returncode < 0 else p.returncode},
+                            "replay": {"kind": kind, "depth": depth, "stderr": p.stderr[-300:]}})
+                continue
+            r = json.loads(p.stdout.strip().splitlines()[-1])
+            if r.get("panicked"):
+                out.append({"property": pid, "class": "panic", "features": {"kind": kind}, "replay": r})
+            elif kind.startswith("ana-"):
+                if r.get("monitors"):
+                    out.append({"property": pid, "class": r["monitors"][0], "features": {"kind": kind}, "replay": r})
+            else:
+                for part in ("immediate", "program"):
+                    if r[part]["ok"] is False and r[part]["mode"] != "idle":
+                        out.append({"property": pid, "class": "error_without_idle", "features": {"kind": kind}, "replay": r})
+                if not r.get("usable_afterwards"):
+                    out.append({"property": pid, "class": "unusable_after_error", "features": {"kind": kind}, "replay": r})
+    return out, n
+
+
 # ---------------------------------------------------------------- findings
 
 def load_findings():
